@@ -61,6 +61,13 @@ def chash(cfg):
 
 
 def describe(cfg):
+    d = _describe(cfg)
+    if cfg.get("np"):
+        d += " [integer arguments as numpy.int64]"
+    return d
+
+
+def _describe(cfg):
     c = cfg["cls"]
     if c == "None":
         return "NoneCheckpointSchedule() n=%d" % cfg["n"]
@@ -86,6 +93,13 @@ def build(cfg):
     from . import lib
     cs, ST = lib.cs, lib.ST
     c = cfg["cls"]
+    if cfg.get("np"):
+        # integer arguments passed as NumPy integers (e.g. taken from an array shape)
+        import numpy as np
+        cfg = dict(cfg)
+        for k in ("n", "ram", "disk", "s", "d", "period", "b"):
+            if k in cfg:
+                cfg[k] = np.int64(cfg[k])
     if c == "None":
         return cs.NoneCheckpointSchedule()
     if c == "SingleMemory":
@@ -420,6 +434,25 @@ def late_finalisation_box(tier):
                 for b in (0, 2):
                     yield {"cls": "TwoLevel", "period": p, "b": b, "storage": "RAM" if (p + b) % 2 else "DISK", "traj": "maximum" if n % 2 else "revolve",
                            "n": n, "passes": 2, "late": late}
+
+
+def numpy_typed_box(tier):
+    """Every class with its integer arguments (and the finalisation point) given as numpy.int64."""
+    N = 9 if tier == "quick" else 16
+    for n in range(1, N + 1):
+        base = [{"cls": "None", "n": n, "passes": 0}, {"cls": "SingleMemory", "n": n, "passes": 2},
+                {"cls": "SingleDisk", "move": False, "n": n, "passes": 2}, {"cls": "SingleDisk", "move": True, "n": n, "passes": 1},
+                {"cls": "Multistage", "n": n, "ram": 1, "disk": 1, "traj": "maximum", "passes": 1},
+                {"cls": "Multistage", "n": n, "ram": 0, "disk": 2, "traj": "revolve", "passes": 1},
+                {"cls": "Mixed", "n": n, "s": 2, "storage": "RAM", "passes": 1},
+                {"cls": "TwoLevel", "period": 3, "b": 1, "storage": "RAM", "traj": "maximum", "n": n, "passes": 2},
+                {"cls": "Revolve", "n": n, "s": 2, "c8": [8, 8, 16, 16], "passes": 1},
+                {"cls": "DiskRevolve", "n": n, "s": 1, "c8": [8, 8, 4, 4], "passes": 1},
+                {"cls": "PeriodicDiskRevolve", "n": n, "s": 1, "c8": [8, 8, 16, 16], "passes": 1},
+                {"cls": "HRevolve", "n": n, "s": 1, "d": 2, "c8": [8, 8, 4, 4], "passes": 1}]
+        for c in base:
+            c["np"] = True
+            yield c
 
 
 def deep_repeat_probes(tier):
